@@ -407,13 +407,18 @@ pub fn c07(run: &mut Run) -> Stats {
         }
         // A run cut by the harness's own caps is not a verdict: an allocation failure under the
         // address-space cap, or a wall timeout on a large input, is reported as a cap.
-        if status == "alloc-failed-under-cap" || (status == "timeout" && n > 10_000) {
+        // The resource envelope under which "never a crash" is judged: 6 GiB of address space must suffice
+        // for a pattern of at most 2^20 code points (more than 6 KiB per code point). Beyond that length an
+        // allocation failure is the harness's cap, not a verdict.
+        let pat_len = shape(name, n).map(|p| p.chars().count()).unwrap_or(usize::MAX);
+        if (status == "alloc-failed-under-cap" && pat_len > (1 << 20)) || (status == "timeout" && n > 10_000) {
             caps.push(format!("{} n={} flags={:?} {}: {}", name, n, fs, if th { "thread" } else { "main" }, status));
             st.add("shape_runs_cut_by_caps", 1);
             continue;
         }
         let what = match status.as_str() {
             "stack-overflow" => "process aborted through stack exhaustion during compilation",
+            "alloc-failed-under-cap" => "process aborted by allocation failure: 6 GiB do not suffice to compile a pattern of at most 2^20 code points",
             "timeout" => "compilation of a small input did not finish within the wall limit",
             _ if out.starts_with("PANIC") => "panic during compilation",
             _ => "compilation crashed the child process",
@@ -435,7 +440,7 @@ pub fn c07(run: &mut Run) -> Stats {
         st.sample(|| t);
     }
     run.rule = format!(
-        "(a) every string over the {}-token alphabet {:?} of length <= {} and every raw code point string over {{0, (, \\, U+D800, U+DFFF, U+10FFFF, a, {{, [, u, }}}} of length <= {} x flag sets {:?}: from_unicode must return Ok or Err (catch_unwind; a watchdog reports any compile > 10 s); (c) every prefix and suffix of every C08 seed pattern, and every prefix followed by each of 15 cut-off construct openings (\\ \\u \\x \\c \\k< \\p{{ \\q{{ (? (?< [ [^ {{ {{1, \\u{{ \\ud83d\\u), x the same flag sets; (c2) every code point of interest (all with a case partner in either mode, encoding-length boundary neighbours, 0..=U+0100, surrogate block ends; thorough: all of 0..=0x10FFFF) substituted into 20 templates (atom, class member, range end, \\q string, set operand, backreference target, quantified, lookbehind, escaped, group name, modifier body, alternation), x the same flag sets x {{optimised, no_opt}}; (b) {} size-parameterised shapes x sizes {:?} x {{\"\",u,v}} x {{main thread, spawned 2 MiB thread}}, each in a child process (8 MiB stack, 6 GiB address space, {} s wall): exit status 0 with Ok/Err; non-trivial = the input compiles",
+        "(a) every string over the {}-token alphabet {:?} of length <= {} and every raw code point string over {{0, (, \\, U+D800, U+DFFF, U+10FFFF, a, {{, [, u, }}}} of length <= {} x flag sets {:?}: from_unicode must return Ok or Err (catch_unwind; a watchdog reports any compile > 10 s); (c) every prefix and suffix of every C08 seed pattern, and every prefix followed by each of 15 cut-off construct openings (\\ \\u \\x \\c \\k< \\p{{ \\q{{ (? (?< [ [^ {{ {{1, \\u{{ \\ud83d\\u), x the same flag sets; (c2) every code point of interest (all with a case partner in either mode, encoding-length boundary neighbours, 0..=U+0100, surrogate block ends; thorough: all of 0..=0x10FFFF) substituted into 20 templates (atom, class member, range end, \\q string, set operand, backreference target, quantified, lookbehind, escaped, group name, modifier body, alternation), x the same flag sets x {{optimised, no_opt}}; (b) {} size-parameterised shapes x sizes {:?} x {{\"\",u,v}} x {{main thread, spawned 2 MiB thread}}, each in a child process (8 MiB stack, 6 GiB address space, {} s wall): exit status 0 with Ok/Err; an allocation failure under the 6 GiB cap is a violation for patterns of at most 2^20 code points and a cap beyond; non-trivial = the input compiles",
         toks.len(),
         TOKENS,
         n_tok,
